@@ -149,6 +149,22 @@ impl TokenFactory {
     }
 }
 
+#[cfg(calloop_verif)]
+impl TokenFactory {
+    /// Verification hook: a factory for the given slot id and version.
+    pub fn verif_new(id: u32, version: u16) -> TokenFactory {
+        TokenFactory::new(TokenInner::new(id as usize).unwrap().verif_with(version, 0))
+    }
+}
+
+#[cfg(calloop_verif)]
+impl Token {
+    /// Verification hook: the key handed to the poller for this token.
+    pub fn verif_raw(&self) -> usize {
+        self.inner.into()
+    }
+}
+
 /// A token (for implementation of the [`EventSource`](crate::EventSource) trait)
 ///
 /// This token is produced by the [`TokenFactory`] and is used when calling the
@@ -266,6 +282,8 @@ impl Poll {
             .collect::<std::io::Result<Vec<_>>>()?;
 
         drop(events);
+        #[cfg(calloop_verif)]
+        let verif_n_real = poll_events.len();
 
         let now = Instant::now();
         let mut timers = self.timers.borrow_mut();
@@ -280,6 +298,14 @@ impl Poll {
             });
         }
 
+        #[cfg(calloop_verif)]
+        {
+            let keys: Vec<usize> = poll_events.iter().map(|e| e.token.verif_raw()).collect();
+            crate::verif::observe(crate::verif::Obs::Batch {
+                keys: &keys,
+                n_real: verif_n_real,
+            });
+        }
         Ok(poll_events)
     }
 
